@@ -1127,14 +1127,14 @@ fn main() {
     s.describe_check("sched", "client tasks + shard actors on a current-thread runtime, schedule = generated yield counts; one history per shard count");
     s.run_cases(
         "sched",
-        s.scale(8_000, 100_000),
+        s.scale(8_000, 400_000),
         || case_strategy(2..=5, 1..=25, shard_counts.clone()),
         |c, ctx| check_case(c, Mode::Sched, &s, ctx),
     );
     s.describe_check("conn_clients", "the same programs through concurrent connection handlers (hook) over in-memory duplex streams, sharing one ShardedActorState");
     s.run_cases(
         "conn_clients",
-        s.scale(2_000, 30_000),
+        s.scale(2_000, 100_000),
         || case_strategy(2..=5, 1..=20, vec![1usize, 4, 16]),
         |c, ctx| check_case(c, Mode::Conn, &s, ctx),
     );
@@ -1142,7 +1142,7 @@ fn main() {
         s.describe_check("stress", "8-16 clients on a 4-worker multi-thread runtime; a violating history is saved for replay through checker_hand");
         s.run_cases(
             "stress",
-            s.scale(0, 400),
+            s.scale(0, 1_000),
             || case_strategy(8..=16, 10..=25, vec![1usize, 2, 4, 16]),
             |c, ctx| check_case(c, Mode::Stress, &s, ctx),
         );
